@@ -1107,6 +1107,46 @@ def r67(ctx: Ctx) -> RuleReport:
 
 
 # ---------------------------------------------------------------------------------------------
+def _r83_early_return_form(ctx, rep, fi, cfg, IN, pm, rets):
+    """_find_next written with early returns: every `return data[k:], v, data[:k]` inside the search loop is a hit that ends the search"""
+    in_loop = [r for r in rets if any(isinstance(a, (ast.For, ast.While)) for a in _ancestors(pm, r))]
+    for r in in_loop:
+        loop = next(a for a in _ancestors(pm, r) if isinstance(a, (ast.For, ast.While)))
+        outer = [a for a in _ancestors(pm, r) if isinstance(a, (ast.For, ast.While))]
+        idx = set()
+        for part in (r.value.elts[0], r.value.elts[2]):
+            idx |= {x.id for x in ast.walk(expand(ctx, fi, part, r)) if isinstance(x, ast.Name)}
+        lvs = set()
+        for lp in outer:
+            if isinstance(lp, ast.For):
+                lvs |= {x.id for x in ast.walk(lp.target) if isinstance(x, ast.Name)}
+        key = f'{fi.fq}: `{norm(r)[:60]}` splits the data at the datum that was found'
+        if lvs & idx:
+            rep.ok(key, fi.loc(r))
+        else:
+            rep.violation(key, fi.loc(r), f'the hit is found in the loop over {sorted(lvs)}, but the split point is computed from {sorted(idx)}: variable and data halves belong to different data')
+    if not in_loop:
+        rep.undecided(f'{fi.fq}: a hit returns from inside the search loop', fi.loc(), 'no three-part return inside a loop')
+    conds = [nd for nd in cfg.nodes if nd.kind == 'cond' and norm(nd.ast).startswith('isinstance(') and norm(nd.ast).endswith(', Pop)')]
+    if not conds:
+        rep.undecided(f'{fi.fq}: POP data are recognised with isinstance(datum, Pop)', fi.loc())
+    for c in conds:
+        dn = norm(c.ast.args[0])
+        loop = next((a for a in _ancestors(pm, c.ast) if isinstance(a, (ast.For, ast.While))), None)
+        if loop is None:
+            rep.undecided(f'{fi.fq}: a POP datum is skipped and the search goes on', fi.loc(c.ast))
+            continue
+        head = cfg.node_of(loop)
+        leaves = cfg.path_avoiding([(c.id, 'T')], {cfg.exit, cfg.rexit}, lambda nd: nd.id == head)
+        rep.add(f'{fi.fq}: a POP datum is skipped and the search goes on', fi.loc(c.ast), 'violation' if leaves else 'ok',
+                'a POP datum ends the search' if leaves else '')
+        for sb in [n for n in ast.walk(loop) if isinstance(n, ast.Subscript) and norm(n.value) == dn][:3]:
+            fx = facts_at(cfg, IN, pm, sb)
+            rep.add(f'{fi.fq}: `{norm(sb)}` is only evaluated for data that are not POP', fi.loc(sb), 'ok' if (norm(c.ast), False) in fx else 'violation',
+                    '' if (norm(c.ast), False) in fx else f'`{norm(sb)}` can be evaluated for a POP datum (a Pop object is not subscriptable)')
+    return rep
+
+
 @rule('R83', '_find_next skips POP data, stops at the first datum it can place and splits the pending data exactly there')
 def r83(ctx: Ctx) -> RuleReport:
     rep = RuleReport('R83', r83.title, floor=2)
@@ -1115,6 +1155,8 @@ def r83(ctx: Ctx) -> RuleReport:
     IN = cond_facts(cfg)
     pm = ctx.repo.parent_map(fi.node)
     rets = [n for n in walk_local(fi.node) if isinstance(n, ast.Return) and isinstance(n.value, ast.Tuple) and len(n.value.elts) == 3]
+    if len(rets) > 1:
+        return _r83_early_return_form(ctx, rep, fi, cfg, IN, pm, rets)
     if len(rets) != 1:
         rep.undecided(f'{fi.fq}: returns (data after the split, variable, data before the split)', fi.loc(), f'{len(rets)} three-part returns')
         return rep
